@@ -111,6 +111,8 @@ Shape(c) ==
                 "sampled_with_samples_and_key_hasher_and_hasher"} -> <<c.n, Min2(c.s, 8)>>
     [] OTHER -> <<>>
 ShapeOK(c, shape) == Shape(c) # <<>> => shape = Shape(c)
+SampledCalls == {"sampled_new", "sampled_with_samples", "sampled_with_hasher", "sampled_with_key_hasher", "sampled_with_samples_and_hasher",
+                 "sampled_with_samples_and_key_hasher", "sampled_with_samples_and_key_hasher_and_hasher"}
 \* the calls that supply hashers (C17: the configuration must not depend on them)
 HasherCalls == {"raw_with_hasher", "raw_with_cb_and_hasher", "arc_builder", "arc_builder_perm", "slru_builder_setters", "slru_builder_perm",
                 "2q_builder_hashers", "w_builder_hashers", "sampled_with_hasher", "sampled_with_key_hasher",
